@@ -108,6 +108,7 @@ def termToJson : Prep.Term → Json
 
 def errStr : Err → String
   | .typeError => "TypeError" | .valueError => "ValueError" | .zeroDivisionError => "ZeroDivisionError"
+  | .indexError => "IndexError"
 
 def sBoundToJson (b : SBound) : Json :=
   Json.mkObj [("data", termToJson b.data), ("fs", ratToJson b.fs), ("dt", ratToJson b.dt)]
@@ -245,8 +246,18 @@ def prepMultiNamed (j : Json) : Except String Json := do
     | .error e => out := out.push (nStateToJson (mStateToJson (errStr e) Json.null) mBoundToJson s)
   pure (Json.arr out)
 
+/-- `{"op":"pre_multisetup_checked","nch":[…],"ref_ind":[[…],…]}` → `{"outcome": "ok" | exception class,
+    "splits": [...]}` for datasets `init 0 … init (len nch − 1)`. -/
+def preMultisetupCheckedOp (j : Json) : Except String Json := do
+  let nch ← listOf natOfJson (← field j "nch")
+  let refInd ← listOf (listOf natOfJson) (← field j "ref_ind")
+  let terms := (List.range nch.length).map Prep.Term.init
+  match preMultisetupChecked (fun i => nch.getD i 0) terms refInd with
+  | .ok Y => pure (Json.mkObj [("outcome", "ok"), ("splits", listToJson splitToJson Y)])
+  | .error e => pure (Json.mkObj [("outcome", errStr e), ("splits", Json.null)])
+
 def ops : List (String × (Json → Except String Json)) :=
-  [("prep_single", prepSingle), ("prep_multi", prepMulti), ("prep_spec", prepSpec),
+  [("pre_multisetup_checked", preMultisetupCheckedOp), ("prep_single", prepSingle), ("prep_multi", prepMulti), ("prep_spec", prepSpec),
    ("prep_single_named", prepSingleNamed), ("prep_multi_named", prepMultiNamed)]
 
 end PV.Ops.C14
